@@ -54,8 +54,8 @@ def expand(text, vars=(), depth=0):
             name = text[i + 2:j]
             i = j + 1
             sp = name.find(' ')
-            if sp > 0 and (name[:sp] == 'patsubst' or name[:sp] == 'subst'):
-                r = _function(name[:sp], name[sp + 1:], vars, depth)
+            if sp > 0 and (name[:sp] == 'patsubst' or name[:sp] == 'subst' or name[:sp] == 'call'):
+                r = _function(name[:sp], name[sp + 1:], vars, depth, d)
                 if r is None:
                     return None
                 out += r
@@ -76,15 +76,17 @@ def expand(text, vars=(), depth=0):
     return out
 
 
-def _split_args(text):
-    """function arguments: split at commas outside nested $( ) / ${ }"""
+def _split_args(text, opener='('):
+    """function arguments: split at commas outside nested brackets of the kind that opened the
+    function reference (function.c handle_function counts only that kind)"""
+    closer = ')' if opener == '(' else '}'
     args = []
     cur = ''
     depth = 0
     for ch in text:
-        if ch == '(' or ch == '{':
+        if ch == opener:
             depth += 1
-        elif ch == ')' or ch == '}':
+        elif ch == closer:
             depth -= 1
         if ch == ',' and depth == 0:
             args.append(cur)
@@ -110,10 +112,28 @@ def _words(text):
     return out
 
 
-def _function(fname, argtext, vars, depth):
+def _function(fname, argtext, vars, depth, opener='('):
     """$(subst from,to,text) and $(patsubst pattern,replacement,text) (function.c); the first
     argument keeps its leading blanks stripped as Make does for every function"""
-    raw = _split_args(lstrip_blank(argtext))
+    raw = _split_args(lstrip_blank(argtext), opener)
+    if fname == 'call':
+        # $(call var,a1,a2,...): expand the (recursive) variable with $(1), $(2), ... bound to the
+        # expanded arguments; leading blanks of the first argument (the name) are stripped only
+        vname = expand(raw[0], vars, depth + 1)
+        if vname is None:
+            return None
+        body = lookup(vars, rstrip_blank(vname))
+        if not isinstance(body, tuple):
+            return None
+        bound = []
+        for k, a in enumerate(raw[1:]):
+            e = expand(a, vars, depth + 1)
+            if e is None:
+                return None
+            bound.append((str(k + 1), e))
+        for k in range(len(raw), 10):
+            bound.append((str(k), ''))
+        return expand(body[1], bound + list(vars), depth + 1)
     if len(raw) < 3:
         return None
     if len(raw) > 3:
